@@ -105,6 +105,9 @@ class Spec:
                 for p in PROMISED:
                     if p not in live:
                         acts.append("l:push:%d:%d" % (parents[0], p))
+                for p in (2, 4, 6, TOP - 1):
+                    if p not in live:
+                        acts.append("l:badpush:%d:%d" % (parents[0], p))     # refused for its header list, whatever the id
             for s in live:
                 if not m.streams[s].local_init:
                     acts.append("finish:%d" % s)
@@ -162,6 +165,18 @@ class Spec:
             o = h.rx([wire.rst_stream(int(parts[2]), 8)], ("rst", int(parts[2])))
             if o.kind != "ok":
                 bad("rst-rejected", "%s -> %s" % (lab, o.brief()))
+        elif parts[:2] == ["l", "badpush"]:
+            parent, sid = int(parts[2]), int(parts[3])
+            o = h.api("push_stream", parent, sid, H.ni([x for x in H.REQ if x[0] != b":path"]))
+            if o.kind == "ok":
+                bad("invalid-push-accepted", "push_stream with a request list without :path succeeded: %s" % o.brief())
+                st.dead = True
+                return Step("badpush-accepted", viols, prune=True)
+            if not o.is_h2:
+                bad("non-h2-exception", "push_stream(%d) raised %s" % (sid, o.exc_name), exc=o.exc_name)
+            if o.raw:
+                bad("refused-open-emitted", "push_stream(%d) raised but emitted %s" % (sid, o.brief()))
+            out += "-refused"      # no id has been used: the next-id observation below and later opens decide
         elif parts[:2] == ["l", "req"] or parts[:2] == ["l", "push"]:
             if parts[1] == "req":
                 sid = int(parts[2])
